@@ -319,6 +319,53 @@ def repo_state():
 
 
 # ---------------------------------------------------------------------------
+# source fingerprints of the anchored files (comments / whitespace stripped)
+# ---------------------------------------------------------------------------
+
+def _strip_rust(src):
+    src = re.sub(r"/\*.*?\*/", "", src, flags=re.S)
+    src = re.sub(r"//[^\n]*", "", src)
+    return re.sub(r"\s+", "", src)
+
+
+def anchored_files(pid):
+    try:
+        for line in open(os.path.join(ROOT, "properties.jsonl")):
+            p = json.loads(line)
+            if p["id"] == pid:
+                return list(p["anchors"]["files"])
+    except Exception:
+        pass
+    return []
+
+
+def fingerprints(pid):
+    out = {}
+    for rel in anchored_files(pid):
+        path = os.path.join(REPO, rel)
+        try:
+            src = open(path).read()
+            # only the non-test part of a file is modelled
+            cut = src.find("#[cfg(test)]")
+            if cut > 0:
+                src = src[:cut]
+            out[rel] = hashlib.sha1(_strip_rust(src).encode()).hexdigest()[:16]
+        except OSError:
+            out[rel] = "missing"
+    return out
+
+
+def changed_files(pid, fps):
+    """anchored files whose fingerprint differs from the committed baseline
+    (tools/fingerprints.json, written by `tools/vlib.py --baseline` on the unchanged tree)"""
+    try:
+        base = json.load(open(os.path.join(ROOT, "tools", "fingerprints.json"))).get(pid, {})
+    except Exception:
+        return []
+    return sorted(f for f, h in fps.items() if base.get(f) not in (None, h))
+
+
+# ---------------------------------------------------------------------------
 # running cases
 # ---------------------------------------------------------------------------
 
@@ -534,12 +581,24 @@ def run_check(P, argv):
 
     # 5: cases ---------------------------------------------------------------
     rng = Rng(seed)
+    fps = fingerprints(P.ID)
+    changed = changed_files(P.ID, fps)
     if a.replay:
         rp = json.load(open(a.replay))
         cases = rp.get("cases") or ([rp["case"]] if "case" in rp else [])
     else:
         cases = list(P.corpus()) + list(P.gen_cases(rng, tier))
-    ctx.say("[%s] %d cases (%s, seed %d)" % (P.ID, len(cases), tier, seed))
+        # the code this property is anchored in changed since the baseline: not an alarm,
+        # but the quick tier then draws three more rounds of cases (fresh forks of the PRNG)
+        if changed and tier == "quick":
+            seen = set(cases)
+            for _ in range(3):
+                for c in P.gen_cases(rng.fork(), tier):
+                    if c not in seen:
+                        seen.add(c)
+                        cases.append(c)
+    ctx.say("[%s] %d cases (%s, seed %d)%s" % (P.ID, len(cases), tier, seed,
+            "  [anchored source changed: %s -> escalated]" % ", ".join(changed[:4]) if changed else ""))
 
     model_lines = run_sharded([os.path.join(OCAML, "bin", P.RUNNER)], cases, P.ID + "_m") if model_ok else None
     impl = {}
@@ -621,6 +680,8 @@ def run_check(P, argv):
         "input_distribution": res.get("hist", {}),
         "profiles": list(impl.keys()),
         "repo_state": list(repo_state()),
+        "source_fingerprints": fps,
+        "source_changed_since_baseline": changed,
         "exhaustive": bool(res.get("exhaustive", False)),
         "problems": [p[1] for p in problems],
     }
@@ -636,3 +697,13 @@ def run_check(P, argv):
     ctx.say("[%s] OK: %d theorems closed, %d cases impl=model=spec, %.1fs" % (
         P.ID, discharged, len(cases), time.time() - ctx.t0))
     return 0
+
+
+if __name__ == "__main__" and len(sys.argv) > 1 and sys.argv[1] == "--baseline":
+    base = {}
+    for line in open(os.path.join(ROOT, "properties.jsonl")):
+        pid = json.loads(line)["id"]
+        base[pid] = fingerprints(pid)
+    with open(os.path.join(ROOT, "tools", "fingerprints.json"), "w") as f:
+        json.dump(base, f, indent=1, sort_keys=True)
+    print("baseline fingerprints written for", len(base), "properties")
